@@ -16,7 +16,7 @@ def _sig(mode, info, rec):
     ev = info.get("event") or {}
     s = "server:%s:rejected-at:%s" % (mode, ev.get("ev"))
     if ev.get("ev") in ("Write", "PartialWrite", "Quiet") and any(
-            e.get("ev") == "PartialWrite" and e is not ev and (ev.get("ev") == "Quiet" or e.get("c") == ev.get("c")) for e in rec["events"]):
+            e.get("ev") == "PartialWrite" and e is not ev and (ev.get("ev") == "Quiet" or e.get("c") == ev.get("c")) for e in rec["events"]):  # noqa
         return s + ":connection-kept-after-partial-write"
     if ev.get("ev") == "Arm":
         s += ":cls=%s" % ev.get("cls")
@@ -104,14 +104,40 @@ def run_extra(ctx):
 
     # ---- leg B
     rng = random.Random(ctx.seed)
-    tb = vlib.tlc_behaviours(ctx, "ServerConn", "ServerConn_gen.cfg", simulate=12000 if T else 2500, depth=60)
+    tb = vlib.tlc_behaviours(ctx, "ServerConn", "ServerConn_gen.cfg", simulate=16000 if T else 4000, depth=60)
     ub = vlib.tlc_behaviours(ctx, "ServerConn", "ServerConn_genudp.cfg", simulate=5000 if T else 1000, depth=50)
+
+    def stalled_reply(b):
+        """a handler of a connection returns a payload while that connection's client is stalled"""
+        qc, st = {}, set()
+        for x in b["steps"]:
+            if x["a"] == "Invoke":
+                qc[x["q"]] = x.get("c")
+            elif x["a"] == "Stall":
+                st.add(x["c"])
+            elif x["a"] == "Unstall":
+                st.discard(x["c"])
+            elif x["a"] == "Release" and x.get("k") == "reply" and qc.get(x["q"]) in st:
+                return True
+        return False
+
+    def nil_decides(b):
+        """a nil reply is the only thing that ends its connection (no EOF / garbage / deadline expiry on it)"""
+        qc, other = {}, set()
+        for x in b["steps"]:
+            if x["a"] == "Invoke":
+                qc[x["q"]] = x.get("c")
+            elif x["a"] in ("HalfClose", "Garbage", "TimerFire"):
+                other.add(x["c"])
+        return any(x["a"] == "Release" and x.get("k") == "nil" and qc.get(x["q"]) not in other for x in b["steps"])
 
     def weight(b):
         acts = [s["a"] for s in b["steps"]]
         return (acts.count("Invoke") >= 2) + ("TimerFire" in acts) + ("Garbage" in acts) + any(
-            s["a"] == "Release" and s.get("k") == "nil" for s in b["steps"]) + ("SendPart" in acts) + ("ListenerClose" in acts) + 2 * (
-                "Stall" in acts and any(s["a"] == "Release" and s.get("k") == "reply" for s in b["steps"][acts.index("Stall"):]))
+            s["a"] == "Release" and s.get("k") == "nil" for s in b["steps"]) + ("SendPart" in acts) + ("ListenerClose" in acts) + 3 * stalled_reply(b) + 3 * nil_decides(b)
+    ctx.cov.setdefault("extra", {})["server_stalled_reply_schedules"] = sum(1 for b in tb if stalled_reply(b))
+    log("ServerConn generator: %d tcp schedules release a reply towards a stalled client, %d end a connection only by a nil reply" % (
+        ctx.cov["extra"]["server_stalled_reply_schedules"], sum(1 for b in tb if nil_decides(b))))
     for bs, n in ((tb, 2500 if T else 450), (ub, 600 if T else 120)):
         rng.shuffle(bs)
         bs.sort(key=lambda b: -weight(b))
